@@ -268,19 +268,21 @@ func UDP(src, dst netip.Addr, sport, dport uint16, payload []byte) []byte {
 
 // Packet is a decoded IP packet (first fragment only matters here).
 type Packet struct {
-	Raw      []byte
-	Version  int
-	IHL      int // bytes (v4) / 40 (v6)
-	TOS      uint8
-	TotalLen int // v4 total length; v6 40+payload length
-	ID       uint16
-	Flags    uint8
-	FragOff  uint16
-	TTL      uint8
-	Proto    uint8
-	Src, Dst netip.Addr
-	IPOpts   []byte
-	Payload  []byte // L4 bytes
+	Raw     []byte
+	Version int
+	IHL     int // bytes (v4) / 40 (v6)
+	TOS     uint8
+	// FlowLabel: the 20-bit IPv6 flow label (0 for IPv4): with the addresses it is what IPv6 routers hash a flow on
+	FlowLabel uint32
+	TotalLen  int // v4 total length; v6 40+payload length
+	ID        uint16
+	Flags     uint8
+	FragOff   uint16
+	TTL       uint8
+	Proto     uint8
+	Src, Dst  netip.Addr
+	IPOpts    []byte
+	Payload   []byte // L4 bytes
 
 	// L4 (filled when recognised)
 	ICMPType, ICMPCode uint8
@@ -342,6 +344,7 @@ func Parse(b []byte) (*Packet, error) {
 		p.IHL = 40
 		w := binary.BigEndian.Uint32(b[0:])
 		p.TOS = uint8(w >> 20)
+		p.FlowLabel = w & 0xfffff
 		pl := int(binary.BigEndian.Uint16(b[4:]))
 		p.TotalLen = 40 + pl
 		if p.TotalLen != len(b) {
